@@ -213,6 +213,22 @@ def readListArm (abort : Bool) (elem : Prim) (n : Option Nat) (path : Path) (s :
   | none => crash "KeyError" "process_tpmu: no _list_size for a list member" s
   | some k => readPrimList abort elem path k s
 
+/-- one iteration of the field loop of `process_tpms`, for a field whose type is decoded by `d`
+(`tname`: the type's name, for the `list[...]` event) -/
+def decodeFieldWith (d : Path → Option Int → St → R Val) (tname : String) :
+    FKind → Path → List (String × Val) → St → R Val
+  | .plain, fpath, _, s => d fpath none s
+  | .selected sel, fpath, vals, s =>
+    match selOf vals sel with
+    | .crash cls => crash cls "process_tpms: selector lookup" s
+    | .sel sv => d fpath sv s
+  | .counted, fpath, vals, s =>
+    match countOf vals with
+    | .crash cls => crash cls "process_tpms: count of a list" s
+    | .count c =>
+      (repeatDec (fun p s => d p none s) fpath c 0
+        (emitM ⟨fpath, .listOf tname, none, ""⟩ s)).bind fun vs s => .ok (.list vs, s)
+
 mutual
 /-- `process(tpm_type, path, selector=sel, …)` for structure types -/
 def decode (abort : Bool) : Ty → Path → Option Int → St → R Val
@@ -253,6 +269,7 @@ def decode (abort : Bool) : Ty → Path → Option Int → St → R Val
     | none => crash "AssertionError" "process_tpmu: selector selects no member" s
     | some an => decodeArm abort arms name an path s
   | .bad r, _, _, s => crash "ModelError" ("untranslatable type " ++ r) s
+termination_by structural t => t
 
 /-- `field = next(f for f in fields(tpm_type) if f.name == selectee_name)` and its processing -/
 def decodeArm (abort : Bool) : Arms → String → String → Path → St → R Val
@@ -267,24 +284,13 @@ def decodeArm (abort : Bool) : Arms → String → String → Path → St → R 
     if an = want then
       (readListArm abort elem n (path ++ [⟨an, none⟩]) s).bind fun v s => .ok (.obj un false [(an, v)], s)
     else decodeArm abort rest un want path s
+termination_by structural arms => arms
 
 /-- the field loop of `process_tpms` -/
 def decodeFields (abort : Bool) : Fields → Path → List (String × Val) → St → R (List (String × Val))
   | .nil, _, vals, s => .ok (vals, s)
   | .cons fname kind t rest, path, vals, s =>
-    (decodeField abort kind t (path ++ [⟨fname, none⟩]) vals s).bind fun v s =>
+    (decodeFieldWith (fun p sel s => decode abort t p sel s) t.name kind (path ++ [⟨fname, none⟩]) vals s).bind fun v s =>
       decodeFields abort rest path (vals ++ [(fname, v)]) s
-
-def decodeField (abort : Bool) : FKind → Ty → Path → List (String × Val) → St → R Val
-  | .plain, t, fpath, _, s => decode abort t fpath none s
-  | .selected sel, t, fpath, vals, s =>
-    match selOf vals sel with
-    | .crash cls => crash cls "process_tpms: selector lookup" s
-    | .sel sv => decode abort t fpath sv s
-  | .counted, t, fpath, vals, s =>
-    match countOf vals with
-    | .crash cls => crash cls "process_tpms: count of a list" s
-    | .count c =>
-      (repeatDec (fun p s => decode abort t p none s) fpath c 0
-        (emitM ⟨fpath, .listOf t.name, none, ""⟩ s)).bind fun vs s => .ok (.list vs, s)
+termination_by structural fs => fs
 end
